@@ -56,6 +56,9 @@ func subtypeC(a, b cadence.Type) bool {
 	if r, ok := b.(*cadence.ReferenceType); ok {
 		return subtypeC(a, r.Type)
 	}
+	if r, ok := a.(*cadence.ReferenceType); ok {
+		return subtypeC(r.Type, b)
+	}
 	if a.ID() == "Never" {
 		return true
 	}
